@@ -38,6 +38,8 @@ type recovered struct {
 	IndexOk       bool   `json:"indexOk"`
 	CommitOk      bool   `json:"commitOk"`
 	Detail        string `json:"detail"`
+	// Cause: set when a failed check could be traced to a specific on-disk state
+	Cause string `json:"cause,omitempty"`
 }
 
 // recoveryOptions: everything permanent is stored with the files (file size, limits, embedded values, prealloc); the number
@@ -200,6 +202,23 @@ func recoverImage(tr *storetrace.Tracer, dir string, ioConc int, acks []ack, com
 						rec.Detail += fmt.Sprintf("Get(%q) differs (err=%v) got tx=%d len=%d want len=%d; ", k, err, ref.Tx(), len(got), len(v))
 					}
 				}
+				if !rec.IndexOk {
+					// diagnosis only: is the index merely late although WaitForIndexingUpto returned?
+					time.Sleep(200 * time.Millisecond)
+					late := true
+					for k, v := range latest {
+						ref, err := st.Get(ctx, []byte(k))
+						if err != nil {
+							late = false
+							break
+						}
+						if got, err := ref.Resolve(); err != nil || string(got) != string(v) {
+							late = false
+							break
+						}
+					}
+					rec.Detail += fmt.Sprintf("(200 ms later the index agrees: %v; committed %d precommitted %d) ", late, st.LastCommittedTxID(), st.LastPrecommittedTxID())
+				}
 			}
 		}
 		// the database accepts new commits afterwards
@@ -248,6 +267,71 @@ func recoverImage(tr *storetrace.Tracer, dir string, ioConc int, acks []ack, com
 	}
 }
 
+// indexAgreesWithoutTsFile: diagnosis of a recovered index that lacks committed entries although it reports to be up to date.
+// The same image is recovered once more after removing the TIMESTAMP file of the key-value index (tbtree raises the time of
+// the recovered tree to the value in that file): if the index then agrees with the history, the file was ahead of the
+// flushed tree.
+func indexAgreesWithoutTsFile(dir string, ioConc int) (agrees bool) {
+	removed := false
+	ents, _ := os.ReadDir(filepath.Join(dir, "index_00"))
+	for _, e := range ents {
+		if strings.HasPrefix(e.Name(), "TIMESTAMP") {
+			os.Remove(filepath.Join(dir, "index_00", e.Name()))
+			removed = true
+		}
+	}
+	if !removed {
+		return false
+	}
+	vh.Guard(60*time.Second, func() {
+		st, err := store.Open(dir, recoveryOptions(ioConc))
+		if err != nil {
+			return
+		}
+		defer st.Close()
+		if err := st.InitIndexing(&store.IndexSpec{SourcePrefix: []byte{database.SetKeyPrefix}, TargetPrefix: []byte{database.SetKeyPrefix}}); err != nil {
+			return
+		}
+		dl := time.Now().Add(5 * time.Second)
+		for st.LastCommittedTxID() < st.LastPrecommittedTxID() && time.Now().Before(dl) {
+			time.Sleep(200 * time.Microsecond)
+		}
+		n, _ := st.CommittedAlh()
+		ne, kl := st.MaxTxEntries(), st.MaxKeyLen()
+		txh := txHolders.get(ne, kl)
+		defer txHolders.put(ne, kl, txh)
+		latest := map[string][]byte{}
+		for id := uint64(1); id <= n; id++ {
+			if err := st.ReadTx(id, false, txh); err != nil {
+				return
+			}
+			for _, e := range txh.Entries() {
+				k := append([]byte(nil), e.Key()...)
+				v, err := st.ReadValue(e)
+				if len(k) > 0 && k[0] == database.SetKeyPrefix && err == nil && (e.Metadata() == nil || !e.Metadata().Deleted()) {
+					latest[string(k)] = v
+				}
+			}
+		}
+		ctx, cancel := context.WithTimeout(context.Background(), 20*time.Second)
+		defer cancel()
+		if err := st.WaitForIndexingUpto(ctx, n); err != nil {
+			return
+		}
+		for k, v := range latest {
+			ref, err := st.Get(ctx, []byte(k))
+			if err != nil {
+				return
+			}
+			if got, err := ref.Resolve(); err != nil || string(got) != string(v) {
+				return
+			}
+		}
+		agrees = true
+	})
+	return agrees
+}
+
 func evUint(e storetrace.Event, k string) uint64 {
 	switch v := e[k].(type) {
 	case uint64:
@@ -270,6 +354,10 @@ func (r *run) images(sdir string, maxPoints, maxPointsDefault, workers int, out 
 		cAt  uint64
 		idx  bool
 		rec  *recovered
+		snap *storetrace.ImageBuilder // the image can be materialised again (diagnosis of a failed index check)
+		mode storetrace.Mode
+		name string
+		k    int
 	}
 	jobs := make(chan job, 64)
 	var wg sync.WaitGroup
@@ -279,6 +367,16 @@ func (r *run) images(sdir string, maxPoints, maxPointsDefault, workers int, out 
 			defer wg.Done()
 			for j := range jobs {
 				recoverImage(r.tr, j.dir, j.io, j.acks, j.cAt, j.idx, j.rec)
+				if j.rec.OpenOk && j.rec.ChainOk && !j.rec.IndexOk && j.idx {
+					d2 := filepath.Dir(j.dir) + "_diag"
+					if _, err := j.snap.Materialise(d2, j.mode, rand.New(rand.NewSource(r.seed+int64(j.k)))); err == nil {
+						if indexAgreesWithoutTsFile(filepath.Join(d2, j.name), j.io) {
+							j.rec.Cause = "timestamp-file-ahead-of-flushed-tree"
+							r.res.Count("diagnosed:timestamp-file-ahead-of-flushed-tree", 1)
+						}
+					}
+					os.RemoveAll(d2)
+				}
 				if os.Getenv("VERIF_KEEPBAD") != "" && (!j.rec.OpenOk || !j.rec.ContentOk || !j.rec.ChainOk || !j.rec.IndexOk || !j.rec.ProofOk || !j.rec.CommitOk || !j.rec.ExtraValuesOk) {
 				fmt.Fprintf(os.Stderr, "kept image %s: %s k=%d %s\n", j.dir, j.rec.Mode, j.rec.K, j.rec.Detail)
 					continue
@@ -403,6 +501,7 @@ func (r *run) images(sdir string, maxPoints, maxPointsDefault, workers int, out 
 				ib.Apply(sops[applied])
 				applied++
 			}
+			snap := ib.Clone()
 			// incarnation of the store at this point
 			ep := t.epochs[0]
 			for _, e := range t.epochs {
@@ -436,7 +535,7 @@ func (r *run) images(sdir string, maxPoints, maxPointsDefault, workers int, out 
 				}
 				rec := &recovered{K: p.k, Mode: string(m), At: p.at, How: ep.how}
 				so.recs = append(so.recs, rec)
-				jobs <- job{dir: filepath.Join(idir, name), io: ep.ioConc, acks: acks, cAt: cAt, idx: t.prof != "default" || p.k%4 == 0, rec: rec}
+				jobs <- job{dir: filepath.Join(idir, name), io: ep.ioConc, acks: acks, cAt: cAt, idx: t.prof != "default" || p.k%4 == 0, rec: rec, snap: snap, mode: m, name: name, k: p.k}
 			}
 		}
 	}
@@ -463,6 +562,9 @@ func (r *run) images(sdir string, maxPoints, maxPointsDefault, workers int, out 
 			e := map[string]interface{}{"ev": "Recovered", "store": t.name, "sched": r.idx, "k": rc.K, "mode": rc.Mode, "how": rc.How, "openOk": rc.OpenOk, "c": rc.C,
 				"alhs": rc.Alhs, "chainOk": rc.ChainOk, "linkOk": rc.LinkOk, "contentOk": rc.ContentOk, "extraValuesOk": rc.ExtraValuesOk,
 				"proofOk": rc.ProofOk, "indexOk": rc.IndexOk, "commitOk": rc.CommitOk, "detail": rc.Detail}
+			if rc.Cause != "" {
+				e["cause"] = rc.Cause
+			}
 			if rc.Alhs == nil {
 				e["alhs"] = []int{}
 			}
